@@ -50,6 +50,7 @@ type logItem struct {
 type overlap struct {
 	sub     bool // the call concerns the subscription registry
 	deliver func()
+	atYield string // "" : delivered at the first removal event; otherwise at that yield point of the stack
 	started bool
 	entered chan struct{}
 	done    chan struct{}
@@ -78,14 +79,15 @@ func ovCount(k string) {
 }
 
 type World struct {
-	ov     *overlap
-	mu     sync.Mutex
-	log    []logItem
-	local  *spine.DeviceLocal
-	ents   map[string]api.EntityLocalInterface
-	peers  map[int64]*peerRec
-	curOp  int64
-	closed bool
+	ov      *overlap
+	mu      sync.Mutex
+	log     []logItem
+	local   *spine.DeviceLocal
+	ents    map[string]api.EntityLocalInterface
+	peers   map[int64]*peerRec
+	curOp   int64
+	readCtr int64 // counter of the listing reads sent on behalf of peers
+	closed  bool
 }
 
 type writer struct {
@@ -378,30 +380,60 @@ func (w *World) HandleEvent(p api.EventPayload) {
 	w.mu.Lock()
 	w.log = append(w.log, logItem{ski: -1, ev: z})
 	d := w.ov
-	fire := d != nil && !d.started && p.ChangeType == api.ElementChangeRemove &&
+	fire := d != nil && !d.started && d.atYield == "" && p.ChangeType == api.ElementChangeRemove &&
 		((d.sub && p.EventType == api.EventTypeSubscriptionChange) || (!d.sub && p.EventType == api.EventTypeBindingChange))
 	if fire {
 		d.started = true
 	}
 	w.mu.Unlock()
 	if fire {
-		// the registry is publishing a removal (and may hold its lock): deliver the other peer's call
-		// now, on its own goroutine - never synchronously - and give it a moment.  The waits are
-		// bounded: a call that does not get going in time is simply delivered later (the check may
-		// then miss an interleaving, it cannot report a false one).
-		go func() {
-			close(d.entered)
-			d.deliver()
-			close(d.done)
-		}()
+		d.fire(2 * time.Millisecond)
+	}
+}
+
+// fire delivers the other peer's call now, on its own goroutine - never synchronously - and gives
+// it a moment: the caller is inside the registry (publishing a removal, or parked at a yield point
+// between filter and store) and may hold its lock.  The waits are bounded: a call that does not
+// get going in time is simply delivered later (the check may then miss an interleaving, it cannot
+// report a false one).
+func (d *overlap) fire(grace time.Duration) {
+	go func() {
+		close(d.entered)
+		d.deliver()
+		close(d.done)
+	}()
+	select {
+	case <-d.entered:
 		select {
-		case <-d.entered:
-			select {
-			case <-d.done:
-			case <-time.After(2 * time.Millisecond):
-			}
-		case <-time.After(100 * time.Millisecond):
+		case <-d.done:
+		case <-time.After(grace):
 		}
+	case <-time.After(100 * time.Millisecond):
+	}
+}
+
+// ChainYield is the yield callback of the runner (cmd/c09 installs its scheduler); the overlap of a
+// delete call installs its own for the duration of the delete, forwards every other point to this
+// one and re-installs it afterwards.
+var ChainYield func(point string)
+
+func (w *World) overlapYield(d *overlap, point string) {
+	if point != d.atYield {
+		if f := ChainYield; f != nil {
+			f(point)
+		}
+		return
+	}
+	w.mu.Lock()
+	fire := w.ov == d && !d.started
+	if fire {
+		d.started = true
+	}
+	w.mu.Unlock()
+	if fire {
+		// on the unchanged code the call blocks on the registry mutex until the delete is released:
+		// the whole grace period is spent; 3 ms let a call that is NOT held back finish
+		d.fire(3 * time.Millisecond)
 	}
 }
 
@@ -611,7 +643,7 @@ func (w *World) drain(op int64) []hx.Zs {
 		case model.CmdClassifierTypeReply:
 			out = append(out, hx.Zs{4, it.ski, 3})
 		case model.CmdClassifierTypeRead, model.CmdClassifierTypeCall:
-			if op == 16 || op == 17 {
+			if op == 16 || op == 17 || op == 23 || op == 24 {
 				var kind int64
 				switch {
 				case c.NodeManagementSubscriptionRequestCall != nil:
